@@ -14,7 +14,8 @@ node:  {"p": [...], "how": "context"|"run"}   body inside the PARENT action's co
        {"a": "with"|"finish"|"finish_inside"|"task", "body": [...]}   an action
        {"m": "log_message"|"action_log"}                                a message
        {"s": [...]}                                                     body inside `with S.context():`
-       {"g": [[...], [...]]}   (async only) nested gather of sub-tasks
+       {"g": [[...], [...]], "via": "run"?}   (async only) nested gather of sub-tasks, optionally created inside R.run(...)
+   "dest_yield": bool                 (threads) the destination yields to the scheduler while a message is delivered
 
 Workers are generator-based interpreters that yield at every logging-call
 boundary; threads are driven by pbt/sched.py (explicit checkpoints), asyncio
@@ -34,13 +35,21 @@ from eliot._output import Destinations  # noqa: E402
 
 
 class Recorder(object):
-    def __init__(self):
+    def __init__(self, world=None):
         self.messages = []
         self.lock = threading.Lock()
+        self.world = world
 
     def __call__(self, m):
         with self.lock:
             self.messages.append(dict(m))
+        world = self.world
+        if world is not None and getattr(world, "scheduler", None) is not None:
+            wid = getattr(sched._tls, "wid", None)
+            if wid is not None:
+                # a destination that blocks: other threads get to run while this message is being delivered
+                world.dest_yields = getattr(world, "dest_yields", 0) + 1
+                world.scheduler.park(wid, ("destination", 0, "deliver"))
 
 
 class World(object):
@@ -190,7 +199,18 @@ class World(object):
                 self.expect(who, cur, "after leaving action %s" % n)
             elif "g" in node:
                 # handled by the async runner (marker yielded to the driver)
-                yield ("gather", cur, node["g"], model_children, list(stack))
+                if node.get("via") == "run" and cur is not None:
+                    # the sub-tasks are created inside R.run(...): they inherit R, not the action current around it
+                    n = self.next_n(who)
+                    model = {"kind": "action", "n": n, "who": who, "children": [], "type": "c05:runner"}
+                    model_children.append(model)
+                    runner = start_action(action_type="c05:runner", n=n, who=who)
+                    self.expect(who, cur, "after creating an action (not yet entered)")
+                    yield ("gather", cur, node["g"], model["children"], list(stack), runner)
+                    self.expect(who, cur, "after the tasks created inside run() were awaited")
+                    runner.finish()
+                else:
+                    yield ("gather", cur, node["g"], model_children, list(stack))
 
 
 def _desc(a):
@@ -210,9 +230,9 @@ def run_case_once(case, plan):
     saved = Logger._destinations
     fresh = Destinations()
     Logger._destinations = fresh
-    rec = Recorder()
-    fresh.add(rec)
     world = World(case)
+    rec = Recorder(world if case.get("dest_yield") else None)
+    fresh.add(rec)
     try:
         if case["mode"] == "thread":
             contextvars.copy_context().run(_run_threads, world, case, plan)
@@ -265,6 +285,7 @@ def _run_threads(world, case, plan):
     shared = _prepare(world, case, parent, children)
     world.parent = (parent, children) if parent is not None else None
     scheduler = sched.Scheduler((), plan)
+    world.scheduler = scheduler
     fns = []
     for k, w in enumerate(case["workers"]):
         who = "w%d" % k
@@ -449,10 +470,15 @@ def _run_async(world, case, plan):
             gen = world.body(who, nodes, [], base, parent_model, shared)
             for y in gen:
                 if y[0] == "gather":
-                    _, cur, bodies, model_children, stack = y
+                    _, cur, bodies, model_children, stack = y[:5]
+                    runner = y[5] if len(y) > 5 else None
                     subs = []
                     for j, b in enumerate(bodies):
-                        subs.append(spawn("%s.%d" % (who, j), b, model_children if cur is not None else world.roots, cur))
+                        if runner is not None:
+                            subs.append(runner.run(spawn, "%s.%d" % (who, j), b, model_children, runner))
+                            world.expect(who, cur, "after creating a task inside run()")
+                        else:
+                            subs.append(spawn("%s.%d" % (who, j), b, model_children if cur is not None else world.roots, cur))
                     controller.active -= 1
                     try:
                         await asyncio.gather(*subs)
